@@ -3,7 +3,7 @@
    the in-window samples among the last MaxSamples; the handler gate. *)
 From Coq Require Import Floats.
 From Coq Require Import String.
-From KS Require Import lib.Base model.Health model.Dispatch gen.DispatchTable.
+From KS Require Import lib.Base lib.Strings model.Health model.Dispatch gen.DispatchTable.
 Open Scope Z_scope.
 
 (* ---------- float <= is transitive (needs the stdlib's specification axiom
@@ -332,8 +332,23 @@ Lemma gate_open e :
 Proof. intros A B C D. unfold produce_partition, fetch_partition. rewrite A, B, C, D. split; reflexivity. Qed.
 
 (* the Produce and Fetch rows of the table regenerated from cmd/broker/main.go carry the
-   guard order the gate model assumes (kept here, not in DispatchProofs, so that C25 does
-   not depend on the other dispatch cases) *)
+   guard order the gate model assumes: ACL -> etcd -> lease -> S3 health (produce) and
+   ACL -> S3 health (fetch), every one a per-item `skip` guard inside the partition loop,
+   before the partition log is touched. Guards whose verdict is only stored (`flag`) and the
+   exact name of the log accessor are irrelevant to the gate, so this obligation (kept here,
+   not in DispatchProofs) does not depend on the other dispatch cases or on other fixes. *)
+Definition gate_row_ok (k : string) (expected : list (string * string)) : bool :=
+  match find_row (codes k) dispatch_table with
+  | Some (g, c) =>
+      guards_eqb (filter (fun x => negb (bytes_eqb (snd x) (codes "flag"))) g)
+                 (map (fun x => (codes (fst x), codes (snd x))) expected) &&
+      (bytes_eqb c (codes "h.getPartitionLog") || bytes_eqb c (codes "h.partitionLog"))
+  | None => false
+  end.
+
 Lemma gate_rows_in_source :
-  row_ok dispatch_table "Produce" = true /\ row_ok dispatch_table "Fetch" = true.
+  gate_row_ok "Produce" [("acquirePartitionLeases", "pre"); ("allowTopic[topic.Topic]:ActionProduce", "skip"); ("etcdAvailable", "skip");
+                         ("leaseErrors", "skip"); ("s3Health.State!=S3StateHealthy", "skip")]%string = true /\
+  gate_row_ok "Fetch" [("resolved[topicName]", "pre"); ("allowTopic[topicName]:ActionFetch", "skip");
+                       ("s3Health.State:S3StateDegraded|S3StateUnavailable", "skip")]%string = true.
 Proof. vm_compute. split; reflexivity. Qed.
